@@ -435,7 +435,11 @@ func replayWitnesses(id string, h *HarnessCfg, res *RunResult) int {
 		os.WriteFile(f, b, 0o644)
 		files = append(files, f)
 	}
-	out, err := runGoTest(tmp, h.Pkg, h.Entry, strings.Join(files, ":"), 200*time.Second)
+	out, err := runGoTest(tmp, h.Pkg, h.Entry, strings.Join(files, ":"), 300*time.Second)
+	if strings.Contains(out, "VERIF-HANG: go test killed") || strings.Contains(out, "[build failed]") && strings.Contains(out, "signal: killed") {
+		// the machine was too busy to build and run the replay in time: once more
+		out, err = runGoTest(tmp, h.Pkg, h.Entry, strings.Join(files, ":"), 600*time.Second)
+	}
 	if err != nil && out == "" {
 		return 0
 	}
